@@ -1,4 +1,5 @@
 """C09 — each single-knee detector returns the interior optimum of its stated criterion."""
+import math
 import numpy as np
 from .. import core, gen, detfam
 
@@ -14,6 +15,10 @@ ASSUMPTIONS = ['valid curves: finite, strictly increasing x; L-method limit >= 4
 @core.safe_case
 def one(ctx, kind, pts, opts, family):
     n = len(pts)
+    if 'int_dtype' not in opts:
+        opts = dict(opts, int_dtype=bool(detfam.integral_small(pts) and ctx.rng.random() < 0.3))
+    if opts['int_dtype']:
+        ctx.tag('input:int64-dtype')
     case = dict(detector=kind, options=opts, points=pts.tolist())
     site = f'{kind}.knee' + (f"[{opts.get('fit')},{opts.get('mode')},limit={opts.get('limit')}]" if kind == 'lmethod' else '')
     real = None
@@ -130,6 +135,39 @@ def one(ctx, kind, pts, opts, family):
                 continue
             if k != 2 + int(np.argmin(e)):
                 ctx.fail('predicate', 'get_knee-is-first-minimiser-over-2..n-3', f'lmethod.get_knee[{opts.get("fit")},{cost}]', case, dict(knee=k, errors=e.tolist()))
+    # ---- the optimum again, against the criterion written out from its DEFINITION by the harness (conclusive cases: well-conditioned x)
+    if isinstance(real, int) and not orc.nonfinite and np.all(np.isfinite(pts)) and 0 <= real <= n - 2:
+        px = pts[:, 0]
+        ymax_ = float(np.max(np.abs(pts[:, 1])))
+        noise = {'rss': n * (64 * np.finfo(float).eps * ymax_) ** 2, 'rmse': math.sqrt(n) * 64 * np.finfo(float).eps * ymax_}
+        well = float(np.max(np.abs(px))) <= 1e3 * float(np.ptp(px)) and float(np.max(np.abs(pts[:, 1]))) > 0
+        if not well:
+            ctx.tag('definition-reference-skipped(ill-conditioned x)')
+        elif kind == 'menger':
+            c = np.array([0.0] + [float(v) for v in orc.mc_ref(0, n)] + [0.0])
+            if np.all(np.isfinite(c)) and c[real] < np.max(c) * (1 - 1e-9) - 64 * np.finfo(float).eps / min(float(np.hypot(*(pts[i + 1] - pts[i]))) for i in range(n - 1)):
+                ctx.fail('predicate', 'maximises-menger-curvature(definition: 4*area/(product of the sides))', site, case, dict(knee=real, value=float(c[real]), max=float(np.max(c)), argmax=int(np.argmax(c))))
+        elif kind == 'lmethod' and opts.get('mode', 'adjusted') == 'none' and n >= 5:
+            e = np.asarray(orc.errs_ref(0, n, n, opts.get('fit', 'pointfit'), 'rmse'), float)
+            if np.all(np.isfinite(e)) and 2 <= real <= n - 3 and e[real - 2] > np.min(e) + 1e-7 * np.max(e) + noise['rmse']:
+                ctx.fail('predicate', 'minimises-the-length-weighted-two-line-error(definition)', site, case, dict(knee=real, error=float(e[real - 2]), min=float(np.min(e)), argmin=2 + int(np.argmin(e))))
+        elif kind == 'kneedle' and 1 <= real <= n - 2:
+            dd = orc.dd_ref(0, n)
+            if dd is None:
+                ctx.tag('kneedle-reference-inconclusive(concavity vote ~ 0)')
+            elif np.all(np.isfinite(dd)) and not (dd[real - 1] < dd[real] + 1e-12 and dd[real] + 1e-12 > dd[real + 1]):
+                ctx.fail('predicate', 'kneedle-result-is-a-peak-of-the-difference-curve(definition)', site, case, dict(knee=real, window=[float(v) for v in dd[real - 1:real + 2]]))
+        if kind == 'lmethod' and well and n >= 5:
+            import kneeliverse.lmethod as lm
+            for fitn in ('pointfit', 'bestfit'):
+                for cost in ('rmse', 'rss'):
+                    e = np.asarray(orc.errs_ref(0, n, n, fitn, cost), float)
+                    if not np.all(np.isfinite(e)):
+                        continue
+                    k = int(lm.get_knee(pts[:, 0], pts[:, 1], {'pointfit': lm.Fit.point_fit, 'bestfit': lm.Fit.best_fit}[fitn], {'rmse': lm.Cost.rmse, 'rss': lm.Cost.rss}[cost])[0])
+                    if not (2 <= k <= n - 3) or e[k - 2] > np.min(e) + 1e-7 * np.max(e) + noise[cost]:
+                        ctx.fail('predicate', 'get_knee-minimises-the-length-weighted-two-line-error(definition)', f'lmethod.get_knee[{fitn},{cost}]', case,
+                                 dict(knee=k, error=float(e[k - 2]) if 2 <= k <= n - 3 else None, min=float(np.min(e)), argmin=2 + int(np.argmin(e))))
     ctx.count(family + ':' + kind, n=n, nontrivial_key=nontriv, sample=dict(detector=kind, options=opts, n=n, knee=real, points=pts.tolist() if n <= 12 else '…'))
 
 
@@ -165,6 +203,9 @@ def run(ctx):
     for _ in range(1000 if quick else 20000):
         kind = rng.choice(detfam.DETS)
         pts, fam = curve(ctx, 5 if kind == 'lmethod' else 3, 48 if quick else 200)
+        if not fam.startswith('trace'):
+            pts, vt = gen.variant(rng, pts, 0.2)
+            fam += vt
         one(ctx, kind, pts, rand_opts(rng, kind), fam)
 
 
